@@ -655,6 +655,14 @@ fn cont_props(prop: &str, tier: &str, seed: u64, threads: usize, out: &str) {
                     if which == 0 { gen_cont::deraw_case(fl, &format!("rj{i}"), "json", &per[i].0) } else { gen_cont::deraw_case(fl, &format!("rc{i}"), "cbor", &per[i].1) }
                 });
             }
+            // the container with text keys (judged by the statement alone, not modelled)
+            exec::new_section();
+            let nstr = if quick { 200 } else { 4000 };
+            spread(&mut ctxs, nstr, |i| {
+                let mut rng = Rng::new(seed.wrapping_mul(67).wrapping_add(i as u64));
+                gen_cont::destr_case(&mut rng, all[i % 4], &format!("str{i}"))
+            });
+            extra.insert("text_keys".into(), format!("{} documents of Graph<String, i64, u32> (empty, long and non-ASCII keys; half with an undeclared key), JSON and CBOR", nstr * 6));
             extra.insert("raw_bytes".into(), format!("json documents (exact, byte-level model): {njson}; cbor documents (robustness): {ncbor}; single-edit classes: white space/number literal/punctuation/truncation/trailing for JSON, every item header x (boundary arguments, widths, major types, indefinite, reserved, tags) for CBOR, plus random byte edits"));
             extra.insert("mutations".into(), format!("structural: {nseeds} seeds x 4 flavours x 2 formats; random: {nr}"));
         }
